@@ -1,5 +1,7 @@
 import Lean.Data.Json
 import AFModel.Migrate
+import AFModel.MigrateRows
+import AFModel.MigrateFeat
 import AFModel.Generated.C19
 
 /-! Driver of C19: runs `AF.Migrate.runHistory` over the step table generated from the repository. -/
@@ -68,6 +70,54 @@ def histories : Nat → List (List Bool)
 def allHistories (depth : Nat) : List (List Bool) :=
   (List.range depth).flatMap fun n => histories (n + 1)
 
+/-! rows: a table travels as `[name, [columns], [[[column, value | null], …], …]]` -/
+
+def jsonOfCell : Cell → Json
+  | none => Json.null
+  | some v => Json.str v
+
+def jsonOfData (d : Data) : Json :=
+  Json.arr (d.map fun T => Json.arr #[Json.str T.name, Json.arr (T.cols.map Json.str).toArray,
+    Json.arr (T.rows.map fun r => Json.arr (r.map fun kv => Json.arr #[Json.str kv.1, jsonOfCell kv.2]).toArray).toArray]).toArray
+
+def parseCell (j : Json) : Except String Cell :=
+  match j with
+  | .null => pure none
+  | .str s => pure (some s)
+  | _ => throw "bad cell"
+
+def parseData (j : Json) : Except String Data := do
+  (← j.getArr?).toList.mapM fun e => do
+    let a ← e.getArr?
+    if a.size != 3 then throw "bad table with rows"
+    let t ← a[0]!.getStr?
+    let cs ← (← a[1]!.getArr?).toList.mapM (·.getStr?)
+    let rows ← (← a[2]!.getArr?).toList.mapM fun r => do
+      (← r.getArr?).toList.mapM fun kv => do
+        let p ← kv.getArr?
+        if p.size != 2 then throw "bad cell pair"
+        pure ((← p[0]!.getStr?), (← parseCell p[1]!))
+    pure { name := t, cols := cs, rows := rows }
+
+/-- columns of the file before a use whose values are found under another name (or not at all) after it:
+`[table, column, new name | null]` (`logTrack`) -/
+def movedJson (before : Option RStore) (log : Log) : Json :=
+  match before with
+  | none => Json.arr #[]
+  | some b =>
+    Json.arr ((b.data.flatMap fun T => T.cols.filterMap fun c =>
+      match logTrack T.name log c with
+      | some c' => if c' = c then none else some (Json.arr #[Json.str T.name, Json.str c, Json.str c'])
+      | none => some (Json.arr #[Json.str T.name, Json.str c, Json.null])).toArray)
+
+def parseRFile (j : Json) : Except String (Option RStore) :=
+  match j with
+  | .null => pure none
+  | _ => do
+    let d ← parseData (← j.getObjVal? "tables")
+    let r ← parseRev (← j.getObjVal? "rev")
+    pure (some { data := d, rev := r })
+
 def pathString (h : List Bool) : String := String.ofList (h.map fun b => if b then 'c' else 'n')
 
 end C19
@@ -109,6 +159,51 @@ def handleC19 (j : Json) : Except String Json := do
                     ("rev", jsonOfRev st.rev), ("covers", Json.bool (covers st.schema Generated.orm))]
       | none => Json.null
     pure (Json.mkObj [("nodes", Json.arr out.toArray), ("crash", crashJ)])
+  | "rtree" =>
+    -- the model with rows (`runHistoryR` / `interruptedR`); a node whose tables equal those of the use before
+    -- it (or of the file handed in) answers `"same": true` instead of repeating them
+    let cfg ← parseCfg (← j.getObjVal? "cfg")
+    let file ← parseRFile (← j.getObjVal? "file")
+    let depth ← (j.getObjVal? "depth") >>= (·.getNat?)
+    let (file, crashJ) ← match j.getObjVal? "crash" with
+      | .ok cj => do
+        let n ← cj.getNat?
+        match file with
+        | some s =>
+          let r := interruptedR Generated.table s n
+          pure (some r.1, Json.mkObj [("log", jsonOfLog r.2), ("tables", jsonOfData r.1.data),
+            ("schema", jsonOfSchema (schemaOf r.1.data)), ("rev", jsonOfRev r.1.rev),
+            ("moved", movedJson (some s) (interruptedDurableLog Generated.table s n)), ("wf", Json.bool (wfData r.1.data))])
+        | none => throw "crash needs an existing file"
+      | .error _ => pure (file, Json.null)
+    let out := (allHistories depth).map fun h =>
+      let rs := runHistoryR cfg Generated.table Generated.orm file h
+      match rs.getLast? with
+      | some (st, log) =>
+        let before : Option RStore := match rs.dropLast.getLast? with
+          | some p => some p.1
+          | none => file
+        let same := match before with
+          | some b => decide (b.data = st.data)
+          | none => false
+        Json.mkObj [("path", pathString h), ("log", jsonOfLog log), ("schema", jsonOfSchema (schemaOf st.data)),
+                    ("rev", jsonOfRev st.rev), ("same", Json.bool same),
+                    ("tables", if same then Json.null else jsonOfData st.data),
+                    ("moved", if cfg.migrateCommits then movedJson before log else Json.arr #[]),
+                    ("wf", Json.bool (wfData st.data))]
+      | none => Json.null
+    pure (Json.mkObj [("nodes", Json.arr out.toArray), ("crash", crashJ),
+      ("file_wf", Json.bool (match file with | some s => wfData s.data | none => true)),
+      ("rename_targets", Json.arr ((renameTargets Generated.steps).map fun tc =>
+        Json.arr #[Json.str tc.1, Json.str tc.2]).toArray)])
+  | "features" =>
+    -- which current features are usable on a schema (`usable` over the needs regenerated from the mappers)
+    let s ← parseSchema (← j.getObjVal? "schema")
+    pure (Json.mkObj [
+      ("usable", Json.mkObj ((usableEach s Generated.features).map fun p => (p.1, Json.bool p.2))),
+      ("all", Json.bool (allUsable s Generated.features)),
+      ("needs", Json.mkObj (Generated.features.map fun f =>
+        (f.1, Json.arr (f.2.map fun tc => Json.arr #[Json.str tc.1, Json.str tc.2]).toArray)))])
   | s => throw s!"unknown C19 query {s}"
 
 end AF.Driver
